@@ -86,6 +86,20 @@ impl<'a> ProjectionStrategy for AggregationProjection<'a> {
             .collect::<Vec<String>>();
         set.add_many(filtered);
 
+        // FOR <context> and SINCE <time> are row conditions in aggregation mode too: load
+        // the columns they are evaluated on
+        if self.plan.context_id().is_some() {
+            set.add("context_id");
+        }
+        if let Command::Query {
+            since: Some(_),
+            time_field,
+            ..
+        } = &self.plan.command
+        {
+            set.add(time_field.as_deref().unwrap_or("timestamp"));
+        }
+
         // group by
         if let Some(group_by) = &self.agg.group_by {
             for g in group_by {
